@@ -5,7 +5,8 @@ use crate::json::J;
 use crate::oracles::Which;
 use crate::report::{load_known, Known, Report};
 use crate::rng::{Chooser, Rng};
-use crate::seq::{gen_case, run_case, trigger, CaseResult, CaseSpec, ALL_OPS};
+use crate::rng::next_script;
+use crate::seq::{gen_case, gen_case_sized, run_case, trigger, CaseResult, CaseSpec, ALL_OPS};
 use crate::world::{abstract_hash, render};
 use crate::Opts;
 
@@ -178,7 +179,114 @@ pub fn run(o: &Opts, rep: &mut Report) {
     }
 }
 
+/// Small-scope enumeration: for sampled tiny configurations, execute *every* driver schedule
+/// (every sequence of enabled env steps, including the final greeting/drain phase) against the
+/// real crate and judge each execution with the same monitors.
+pub fn run_enum(o: &Opts, rep: &mut Report) {
+    let ops: Vec<&'static str> = match &o.ops {
+        Some(v) => ALL_OPS.iter().copied().filter(|x| v.iter().any(|y| y == x)).collect(),
+        None => ops_for(&o.prop),
+    };
+    let thorough = o.tier == "thorough";
+    let specs_per_op: u64 = if thorough { 600 } else { 24 };
+    let cap: u64 = if thorough { 20_000 } else { 1_500 };
+    let known = load_known(&o.known);
+    let which = Which::for_prop(&o.prop);
+    let nthreads = o.threads.max(1);
+    let mut reports: Vec<Report> = vec![];
+    std::thread::scope(|s| {
+        let mut hs = vec![];
+        for t in 0..nthreads {
+            let ops = ops.clone();
+            let known = known.clone();
+            let which = which.clone();
+            let prop = o.prop.clone();
+            let seed = o.seed;
+            hs.push(s.spawn(move || {
+                let mut rep = Report::default();
+                for op in ops.iter() {
+                    let op_ix = ALL_OPS.iter().position(|x| x == op).unwrap_or(0);
+                    let mut i = t as u64;
+                    while i < specs_per_op {
+                        let mut gc = Chooser::random(Rng::from_parts(&[seed, prop_num(&prop), 0xE1E, op_ix as u64, i]));
+                        let spec = gen_case_sized(&mut gc, op, &prop, true);
+                        let mut script: Option<Vec<usize>> = Some(vec![]);
+                        let mut n = 0u64;
+                        let mut complete = false;
+                        while let Some(sc) = script.take() {
+                            let mut c = Chooser::scripted(sc.clone());
+                            let r = run_case(&spec, &mut c, &which);
+                            let id = format!(
+                                "E1e:{}:{}:{}:{}:{}",
+                                prop,
+                                seed,
+                                op,
+                                i,
+                                sc.iter().map(|x| x.to_string()).collect::<Vec<_>>().join(".")
+                            );
+                            for (k, v) in r.exercised.iter() {
+                                *rep.exercised.entry(k.to_string()).or_insert(0) += *v;
+                            }
+                            digest(&mut rep, &prop, op, &id, &spec, &r, &known, false);
+                            n += 1;
+                            script = next_script(&c.trail);
+                            if script.is_none() {
+                                complete = true;
+                            }
+                            if n >= cap {
+                                break;
+                            }
+                        }
+                        *rep.enumerated.entry(format!("{}: schedules executed", op)).or_insert(0) += n;
+                        *rep.enumerated.entry(format!("{}: configurations", op)).or_insert(0) += 1;
+                        if complete {
+                            *rep.enumerated.entry(format!("{}: configurations with every schedule executed", op)).or_insert(0) += 1;
+                        }
+                        i += nthreads as u64;
+                    }
+                }
+                rep
+            }));
+        }
+        for h in hs {
+            match h.join() {
+                Ok(r) => reports.push(r),
+                Err(_) => {
+                    let mut r = Report::default();
+                    r.harness_faults.push("worker thread panicked".into());
+                    reports.push(r);
+                },
+            }
+        }
+    });
+    for r in reports {
+        rep.merge(r);
+    }
+}
+
 pub fn replay(o: &Opts, parts: &[&str]) -> i32 {
+    if parts[0] == "E1e" && parts.len() >= 6 {
+        // E1e:<prop>:<seed>:<op>:<spec index>:<script>
+        let prop = parts[1];
+        let seed: u64 = parts[2].parse().unwrap_or(1);
+        let op = parts[3];
+        let i: u64 = parts[4].parse().unwrap_or(0);
+        let script: Vec<usize> = parts[5].split('.').filter(|s| !s.is_empty()).filter_map(|s| s.parse().ok()).collect();
+        let op_ix = ALL_OPS.iter().position(|x| *x == op).unwrap_or(0);
+        let mut gc = Chooser::random(Rng::from_parts(&[seed, prop_num(prop), 0xE1E, op_ix as u64, i]));
+        let spec = gen_case_sized(&mut gc, op, prop, true);
+        let mut c = Chooser::scripted(script);
+        let which = Which::for_prop(prop);
+        let r = run_case(&spec, &mut c, &which);
+        println!("{}", case_json(&spec, &r).pretty());
+        let known = load_known(&o.known);
+        let mut rep = Report::default();
+        let found = digest(&mut rep, prop, op, &parts.join(":"), &spec, &r, &known, false);
+        for v in &r.violations {
+            println!("violation: {:?} {} culprit={} edge={} step={} {}", v.props, v.kind, v.culprit, v.edge_label, v.step, v.detail);
+        }
+        return if found { 1 } else { 0 };
+    }
     // E1:<prop>:<seed>:<op>:<index>
     if parts.len() < 5 {
         eprintln!("malformed case id");
